@@ -127,9 +127,12 @@ Proof.
 Qed.
 
 Section Complete.
-Hypothesis Ronse : RonseLemma.
 Variables (H W : nat) (target : grid).
 Hypothesis Wt : wf H W target.
+(* the deletability lemma, for THIS target only (instantiated by RonseLemma, or by a proved special case) *)
+Hypothesis Ronse : forall g, wf H W g -> TopoEq (img_of g) (img_of target) ->
+  (exists p, img_of g p = true /\ img_of target p = false) ->
+  exists p, img_of g p = true /\ img_of target p = false /\ simple_ok (pat (img_of g) p) = true.
 
 Lemma sweep_fixed_done g : wf H W g -> TopoEq (img_of g) (img_of target) ->
   check_sweep H W target g = g -> g = target.
@@ -137,7 +140,7 @@ Proof.
   intros Hg T E. apply (wf_ext_eq H W g target Hg Wt). intros p.
   destruct (img_of g p) eqn:V.
   - destruct (img_of target p) eqn:V'; [reflexivity|]. exfalso.
-    destruct (Ronse H W g target Hg Wt T) as [s [S1 [S2 S3]]]; [exists p; split; assumption|].
+    destruct (Ronse g Hg T) as [s [S1 [S2 S3]]]; [exists p; split; assumption|].
     assert (N : forall q, skel simple_keep (fun p0 => negb (img_of target p0)) (raster H W) (img_of g) q = img_of g q).
     { intros q. rewrite <- sweep_img by exact Hg. rewrite E. reflexivity. }
     pose proof (skel_noop simple_keep _ (raster H W) (img_of g) N s) as C.
@@ -164,10 +167,20 @@ Proof.
 Qed.
 End Complete.
 
+Theorem topo_check_complete_for : forall H W g g', wf H W g -> wf H W g' ->
+  (forall g0, wf H W g0 -> TopoEq (img_of g0) (img_of g') ->
+     (exists p, img_of g0 p = true /\ img_of g' p = false) ->
+     exists p, img_of g0 p = true /\ img_of g' p = false /\ simple_ok (pat (img_of g0) p) = true) ->
+  TopoEq (img_of g) (img_of g') -> topo_check H W g g' = true.
+Proof.
+  intros H W g g' Hg Hg' R T. unfold topo_check. rewrite (wf_wfb' H W g Hg), (wf_wfb' H W g' Hg'). cbn [andb].
+  rewrite (check_loop_complete H W g' Hg' R (S (H * W)) g Hg T); [apply grid_eqb_refl|].
+  pose proof (count_le_area H W g Hg). lia.
+Qed.
+
 Theorem topo_check_complete_partial : RonseLemma ->
   forall H W g g', wf H W g -> wf H W g' -> TopoEq (img_of g) (img_of g') -> topo_check H W g g' = true.
 Proof.
-  intros R H W g g' Hg Hg' T. unfold topo_check. rewrite (wf_wfb' H W g Hg), (wf_wfb' H W g' Hg'). cbn [andb].
-  rewrite (check_loop_complete R H W g' Hg' (S (H * W)) g Hg T); [apply grid_eqb_refl|].
-  pose proof (count_le_area H W g Hg). lia.
+  intros R H W g g' Hg Hg' T. apply topo_check_complete_for; [exact Hg|exact Hg'| |exact T].
+  intros g0 Hg0 T0 Ex. apply (R H W g0 g' Hg0 Hg' T0 Ex).
 Qed.
